@@ -27,11 +27,13 @@ def gtag(cfg):
         t += "+ignore"
     if cfg.get("prelude"):
         t += "+after:" + ",".join(cfg["prelude"])
+    if cfg.get("inner_prelude"):
+        t += "+inside-after:" + ",".join(cfg["inner_prelude"])
     return t
 
 
 def cfg_json(cfg):
-    c = {k: v for k, v in cfg.items() if k in ("n", "r", "guard", "ignore", "track_all", "prelude")}
+    c = {k: v for k, v in cfg.items() if k in ("n", "r", "guard", "ignore", "track_all", "prelude", "inner_prelude")}
     if isinstance(c.get("guard"), tuple):
         c["guard"] = list(c["guard"])
     return c
